@@ -25,7 +25,7 @@ RULE = ('loader: sets of 0-6 configured names (recording classes with order 0-3,
 ASSUMPTIONS = ['only the first tracepoint logger is used by the agent (documented behaviour), so a second logger '
                'never records', 'the faulted plugin\'s own later calls are not required']
 EXHAUSTIVE = ['per scenario: every (plugin, callback, k-th call) seen in the fault-free run is faulted once']
-REQUIRE = {'loader_sets': 300, 'faults_injected': 1500, 'scenarios': 40, 'callbacks_covered': 5, 'e2e_sessions': 8, 'builtin_plugin_runs': 3}
+REQUIRE = {'loader_base_exception_faults': 4, 'loader_module_exits_at_import': 4, 'loader_sets': 300, 'faults_injected': 1500, 'scenarios': 40, 'callbacks_covered': 5, 'e2e_sessions': 8, 'builtin_plugin_runs': 3}
 SHARD_TIMEOUT = {'quick': 400, 'thorough': 2400}
 
 HOST = '''"""c20 host"""
@@ -86,7 +86,12 @@ def case_loader(seed, out, spec):
             off = r.pick(['false', 'False', 'no', '0'])
             custom_cfg[('plugin_%s' % nm).upper()] = off
         elif c == 7 and r.chance(0.5):
-            names.append(r.pick(['no.such.module.Plugin', 'vf.nope.X', 'os.path.NotThere']))
+            # (the last one is a module that guards a missing dependency with sys.exit() at import: SystemExit is not an
+            # Exception subclass, and the plugin is skipped like any other whose dependencies are missing)
+            pick = r.pick(['no.such.module.Plugin', 'vf.nope.X', 'os.path.NotThere', 'vf.exiting_plugin.Exporter'])
+            names.append(pick)
+            if pick.startswith('vf.exiting'):
+                out.count('loader_module_exits_at_import')
         elif c == 7:
             # switched off / on with a real boolean instead of text, or a plugin whose activity check itself fails
             order = r.randrange(3)
@@ -101,16 +106,24 @@ def case_loader(seed, out, spec):
             elif how == 'order_raises':
                 # a plugin that cannot even say where it wants to be: it is the one that is left out (or sorted as 0),
                 # the others are loaded and ordered as usual
-                def bad_order(self):
-                    raise RuntimeError('no order for %s' % nm)
+                bad_order_exc = r.pick([RuntimeError, RuntimeError, plugins.PluginCancelled])
+                if bad_order_exc is plugins.PluginCancelled:
+                    out.count('loader_base_exception_faults')
+
+                def bad_order(self, _exc=bad_order_exc):
+                    raise _exc('no order for %s' % nm)
                 cls.order = bad_order
                 ambiguous.add(nm)
             elif how == 'order_is_text':
                 cls.order = lambda self: 'first'
                 ambiguous.add(nm)
             else:
-                def broken(self):
-                    raise RuntimeError('cannot tell whether %s is active' % nm)
+                broken_exc = r.pick([RuntimeError, RuntimeError, plugins.PluginCancelled])
+                if broken_exc is plugins.PluginCancelled:
+                    out.count('loader_base_exception_faults')
+
+                def broken(self, _exc=broken_exc):
+                    raise _exc('cannot tell whether %s is active' % nm)
                 cls.is_active = broken
         elif c == 8:
             names.append('vf.plugins.MissingClass%d' % i)
